@@ -173,6 +173,33 @@ func c17ZeroCase(x *c17Runner, in c17Input) {
 		co.hist["zero/"+in.Type+"/not-encodable"]++ // e.g. a nil pointer where the type needs a value: not a value of the type
 		return
 	}
+	// layout law: zeroing a field of fixed width (a hash, an address; for the flat fixed-layout types also an integer)
+	// changes neither the length of the encoding nor its acceptance: "zero" must not be written as "absent"
+	if in.V != "*" && !strings.Contains(in.V, ":") && !strings.Contains(in.V, "=") {
+		if f, ok := c17FieldAt(reflect.ValueOf(v), in.V); ok {
+			k := f.Kind()
+			flat := map[string]bool{"header": true, "header/sr": true, "ping": true, "mptroot": true, "extensible": true}[in.Type] || strings.HasPrefix(in.V, "Header.")
+			isInt := k >= reflect.Int && k <= reflect.Uint64 || k == reflect.Bool
+			if k == reflect.Array || (flat && isInt) {
+				v0, fresh0 := t.value(newRng(in.Seed*1000003 + uint64(in.Idx)))
+				if b0, err := c17Enc(v0.(io.Serializable)); err == nil {
+					if len(b0) != len(b) {
+						bad(fmt.Sprintf("the encoding is %d bytes, %d with the field non-zero: a zero value is written as an absent one", len(b), len(b0)), nil)
+					} else {
+						t0, t1 := fresh0().(io.Serializable), fresh().(io.Serializable)
+						r0, r1 := io.NewBinReaderFromBuf(b0), io.NewBinReaderFromBuf(b)
+						t0.DecodeBinary(r0)
+						t1.DecodeBinary(r1)
+						// (a notary request ties its parts together by hash: zeroing a field of the main transaction legitimately
+						//  breaks the fallback's Conflicts attribute)
+						if r0.Err == nil && r1.Err != nil && in.Type != "notaryrequest" {
+							bad("own encoding is refused once the field is zero: "+r1.Err.Error(), hx(b))
+						}
+					}
+				}
+			}
+		}
+	}
 	tag := "accepted"
 	p := catch(func() {
 		tv := fresh().(io.Serializable)
@@ -253,6 +280,9 @@ func c17RunZeros(x *c17Runner, name string, seed uint64) {
 		return
 	}
 	nidx := 2
+	if name == "appexec" {
+		nidx = 4 // halted and faulted executions
+	}
 	if x.mode == "c17" {
 		nidx = 1 // the direct run (c17x) takes two generated values per type, the model comparison one
 	}
